@@ -177,6 +177,17 @@ pub enum Op {
     Insert(usize),
     Delete(usize),
     Clear,
+    /// self.union(&templates[t].f): a fixed small set of right operands, so that unions (successful
+    /// and failing) occur anywhere inside operation sequences, not only as the last step
+    Union(usize),
+}
+
+/// right operand of Op::Union: built once per model by a fixed history under the all-zero RNG policy
+pub struct Tmpl {
+    pub f: Cf,
+    /// copies per class (Mode::Classes) / per element (Mode::Elements)
+    pub cnt: Vec<u8>,
+    pub label: String,
 }
 
 pub struct CfModel {
@@ -190,6 +201,11 @@ pub struct CfModel {
     pub strict: bool,
     /// violations of other properties seen while exploring (not verdicts of this run)
     pub other: std::sync::atomic::AtomicU64,
+    /// Op::Union(t) is part of the alphabet
+    pub with_union: bool,
+    /// one-step look-ahead from arrivals at known keys (bfs::Search::dup_lookahead)
+    pub lookahead: bool,
+    pub templates: Vec<Tmpl>,
 }
 
 fn viol(p: &str, sig: String, msg: String) -> Violation {
@@ -214,7 +230,48 @@ pub fn raw_key(f: &Cf) -> Vec<u8> {
 impl CfModel {
     pub fn new(cfg: CfCfg, mode: Mode, with_delete: bool) -> Result<Self, String> {
         let classes = compute_classes(&cfg)?;
-        Ok(Self { cfg, classes, mode, with_delete, focus: if mode == Mode::Elements { "C01" } else { "C14" }, strict: false, other: std::sync::atomic::AtomicU64::new(0) })
+        let mut m = Self { cfg, classes, mode, with_delete, focus: if mode == Mode::Elements { "C01" } else { "C14" }, strict: false, other: std::sync::atomic::AtomicU64::new(0), with_union: false, lookahead: false, templates: vec![] };
+        m.templates = m.build_templates();
+        Ok(m)
+    }
+    /// fixed right operands: one element; two copies of one element; a nearly full table; a table with a
+    /// hole in front of an occupied slot (insert two elements of one bucket, delete the first)
+    fn build_templates(&self) -> Vec<Tmpl> {
+        let cfg = &self.cfg;
+        let n = cfg.n_elements();
+        let nb = cfg.n_buckets;
+        let cap = cfg.bucketsize * nb;
+        let recipes: Vec<(Vec<usize>, Vec<usize>, &str)> = vec![
+            (vec![0], vec![], "{e0}"),
+            (vec![n - 1, n - 1], vec![], "{e_last x2}"),
+            ((0..cap.saturating_sub(1)).map(|i| (i * 5 + 1) % n).collect(), vec![], "nearly full"),
+            (vec![0, nb % n, 1 % n], vec![0], "hole: insert e0, e_nb, e1; delete e0"),
+        ];
+        let mut out = vec![];
+        verif_kick_budget(cfg.budget);
+        for (ins, del, label) in recipes {
+            let mut f = cfg.fresh();
+            let mut cnt = vec![0u8; match self.mode { Mode::Classes => self.classes.n_classes, Mode::Elements => n }];
+            let idx = |e: usize| match self.mode { Mode::Classes => self.classes.class_of[e], Mode::Elements => e };
+            for &e in &ins {
+                mccore::chooser::begin_with(&[], Tail::Zero, 0);
+                let r = mccore::panics::catch(|| f.insert(&cfg.key_of(e)));
+                mccore::chooser::end();
+                if let Ok(Ok(_)) = r {
+                    cnt[idx(e)] += 1;
+                }
+            }
+            for &e in &del {
+                if let Ok(true) = mccore::panics::catch(|| f.delete(&cfg.key_of(e))) {
+                    // Mode::Elements counts per element; the delete removes a copy of e's class, which is e's own copy here
+                    if cnt[idx(e)] > 0 {
+                        cnt[idx(e)] -= 1;
+                    }
+                }
+            }
+            out.push(Tmpl { f, cnt, label: label.to_string() });
+        }
+        out
     }
     pub fn init(&self) -> St {
         let n = match self.mode { Mode::Classes => self.classes.n_classes, Mode::Elements => self.cfg.n_elements() };
@@ -312,6 +369,9 @@ impl Model for CfModel {
         let n = self.cfg.n_elements();
         let mut v: Vec<Op> = (0..n).map(Op::Insert).collect();
         v.push(Op::Clear);
+        if self.with_union {
+            v.extend((0..self.templates.len()).map(Op::Union));
+        }
         if self.with_delete {
             for e in 0..n {
                 match self.mode {
@@ -381,6 +441,45 @@ impl Model for CfModel {
                     }
                 }
             }
+            Op::Union(t) => {
+                let tm = &self.templates[t];
+                let before = self.obs(&s.f);
+                let before_key = raw_key(&s.f);
+                let t_key = raw_key(&tm.f);
+                let res = mccore::panics::catch(|| s.f.union(&tm.f));
+                let ctx = format!("union(template {} = {})", t, tm.label);
+                if raw_key(&tm.f) != t_key {
+                    vs.push(viol("C06", format!("{} union modifies other", cfg.sig()), format!("{} modified its argument", ctx)));
+                }
+                match res {
+                    Err(p) => return Err(viol("C06", format!("{} union panics", cfg.sig()), format!("{} panicked: {}", ctx, p))),
+                    Ok(Ok(())) => {
+                        for (i, c) in tm.cnt.iter().enumerate() {
+                            s.cnt[i] = s.cnt[i].saturating_add(*c);
+                        }
+                        s.hist.push((6, t as u16));
+                        for mut v in self.check_state_all(s, &format!("after {} = Ok (reference = multiset sum)", ctx)) {
+                            // a merged state that disagrees with the multiset sum is C06's subject unless an inserted element is lost (C01)
+                            if v.property == "C14" {
+                                v.property = "C06".into();
+                            }
+                            vs.push(v);
+                        }
+                        kind = 6;
+                    }
+                    Ok(Err(_)) => {
+                        let after = self.obs(&s.f);
+                        if after != before {
+                            vs.push(viol("C12", format!("{} failed union changes observations", cfg.sig()), format!("{} returned Err but observations (len, is_empty, query, deletable) changed: {:?} -> {:?}", ctx, before, after)));
+                        }
+                        if raw_key(&s.f) != before_key {
+                            s.tainted = true;
+                        }
+                        vs.extend(self.check_state_all(s, &format!("after failed {}", ctx)));
+                        kind = 7;
+                    }
+                }
+            }
             Op::Clear => {
                 if let Err(p) = mccore::panics::catch(|| s.f.clear()) {
                     return Err(viol("C19", format!("{} clear panics", cfg.sig()), format!("clear() panicked: {}", p)));
@@ -435,7 +534,7 @@ impl Model for CfModel {
 }
 
 pub fn hist_json(h: &[(u8, u16)]) -> Value {
-    json!(h.iter().map(|(o, e)| format!("{}({})", if *o == 0 { "insert" } else { "delete" }, e)).collect::<Vec<_>>())
+    json!(h.iter().map(|(o, e)| format!("{}({})", match *o { 0 => "insert", 1 => "delete", _ => "union_template" }, e)).collect::<Vec<_>>())
 }
 
 pub fn found_to_viol(model: &CfModel, f: &bfs::Found) -> Viol {
@@ -461,7 +560,7 @@ pub struct Explored {
 
 pub fn explore(model: &CfModel, keep_states: bool, max_states: u64, threads: usize) -> Explored {
     let mut states = vec![];
-    let search = Search { max_states, threads, ..Search::new(model) };
+    let search = Search { max_states, threads, dup_lookahead: model.lookahead, ..Search::new(model) };
     let (stats, found) = search.run(vec![model.init()], |s, _| {
         if keep_states {
             states.push(s.clone());
@@ -607,6 +706,111 @@ pub fn pair_sweep(model: &CfModel, lefts: &[St], rights: &[St], threads: usize) 
         viols.extend(v);
     }
     (total, viols)
+}
+
+/// C12 with hidden state in mind. The BFS merges states by (table, len, reference): an implementation that keeps
+/// anything else across calls (a reused undo buffer, a cached cursor) has states the key cannot see. Differential
+/// oracle without a key: for every start state, every operation that FAILS there (every insert, every union
+/// template, every RNG outcome), and every continuation of two further operations (insert / delete / union / clear
+/// of everything), the filter that went through the failed operation must behave exactly like the one that did
+/// not: same results of both continuation steps, same final observations, under the all-first (thorough: and all-last) RNG
+/// answer policies; in the quick tier the last step ranges over inserts and unions only. Returns (failing operations, continuations compared, violations).
+pub fn failure_continuations(model: &CfModel, starts: &[St], threads: usize, full: bool) -> (u64, u64, Vec<Viol>) {
+    let cfg = &model.cfg;
+    let n = cfg.n_elements();
+    let mut all_ops: Vec<Op> = (0..n).map(Op::Insert).collect();
+    all_ops.extend((0..n).map(Op::Delete));
+    all_ops.extend((0..model.templates.len()).map(Op::Union));
+    all_ops.push(Op::Clear);
+    let first_ops: Vec<Op> = all_ops.iter().copied().filter(|o| matches!(o, Op::Insert(_) | Op::Union(_))).collect();
+    // quick: the last step is an operation that can fail again (insert / union), one RNG policy
+    let last_ops: Vec<Op> = if full { all_ops.clone() } else { first_ops.clone() };
+    let tails: Vec<Tail> = if full { vec![Tail::Zero, Tail::Max] } else { vec![Tail::Zero] };
+    let apply = |f: &mut Cf, op: &Op| -> u8 {
+        let r = mccore::panics::catch(|| match *op {
+            Op::Insert(e) => match f.insert(&cfg.key_of(e)) { Ok(true) => 0u8, Ok(false) => 1, Err(_) => 2 },
+            Op::Delete(e) => if f.delete(&cfg.key_of(e)) { 3 } else { 4 },
+            Op::Union(t) => match f.union(&model.templates[t].f) { Ok(()) => 6, Err(_) => 7 },
+            Op::Clear => { f.clear(); 5 }
+        });
+        r.unwrap_or(9)
+    };
+    let chunk = ((starts.len() + threads - 1) / threads).max(1);
+    let eopts = cfg.enum_opts();
+    let results: Vec<(u64, u64, Vec<Viol>)> = std::thread::scope(|sc| {
+        let hs: Vec<_> = starts.chunks(chunk).map(|part| {
+            let (eopts, all_ops, first_ops, last_ops, tails, apply) = (&eopts, &all_ops, &first_ops, &last_ops, &tails, &apply);
+            sc.spawn(move || {
+                mccore::panics::install();
+                verif_kick_budget(cfg.budget);
+                let (mut failing, mut conts) = (0u64, 0u64);
+                let mut vs: Vec<Viol> = vec![];
+                for s0 in part {
+                    for op1 in first_ops.iter() {
+                        for eo in eopts.iter() {
+                            mccore::chooser::for_each_run(*eo, || {
+                                let mut f1 = s0.f.clone();
+                                let r = apply(&mut f1, op1);
+                                (f1, r)
+                            }, |trace, (f1, r)| {
+                                if r != 2 && r != 7 {
+                                    return true;
+                                }
+                                failing += 1;
+                                for op2 in all_ops.iter() {
+                                    for op3 in last_ops.iter() {
+                                        for &tail in tails.iter() {
+                                            conts += 1;
+                                            let mut a = f1.clone();
+                                            let mut b = s0.f.clone();
+                                            mccore::chooser::begin_with(&[], tail, 0);
+                                            let ra = (apply(&mut a, op2), apply(&mut a, op3));
+                                            mccore::chooser::end();
+                                            mccore::chooser::begin_with(&[], tail, 0);
+                                            let rb = (apply(&mut b, op2), apply(&mut b, op3));
+                                            mccore::chooser::end();
+                                            let bad = if ra != rb {
+                                                Some(format!("results {:?} vs {:?}", ra, rb))
+                                            } else {
+                                                let (oa, ob) = (model.obs(&a), model.obs(&b));
+                                                if oa != ob { Some(format!("final observations {:?} vs {:?}", oa, ob)) } else { None }
+                                            };
+                                            if let Some(m) = bad {
+                                                let sig = format!("{} failed operation is not a no-op for what follows", cfg.sig());
+                                                if vs.len() < 4 && !vs.iter().any(|v| v.signature == sig) {
+                                                    let picks: Vec<u32> = trace.iter().map(|d| d.pick).collect();
+                                                    vs.push(Viol { property: "C12".into(), signature: sig,
+                                                        message: format!("after the failing {:?} the continuation [{:?}, {:?}] (RNG answers {:?}) behaves differently than without the failed call: {} (with / without)", op1, op2, op3, tail, m),
+                                                        replay: json!({"structure": "CuckooFilter", "config": cfg.to_json(), "what": "start state by history; failing operation; two further operations; compared with the same two operations on a clone that did not go through the failed call",
+                                                            "history": hist_json(&s0.hist), "table": s0.f.verif_table(), "failing_op": format!("{:?}", op1), "failing_op_rng_picks": picks,
+                                                            "continuation": [format!("{:?}", op2), format!("{:?}", op3)], "continuation_rng_policy": format!("{:?}", tail),
+                                                            "union_templates": model.templates.iter().map(|t| t.label.clone()).collect::<Vec<_>>()}) });
+                                                }
+                                            }
+                                        }
+                                    }
+                                }
+                                true
+                            });
+                        }
+                    }
+                }
+                (failing, conts, vs)
+            })
+        }).collect();
+        hs.into_iter().map(|h| h.join().expect("worker")).collect()
+    });
+    let (mut f, mut c, mut v) = (0u64, 0u64, vec![]);
+    for (a, b, w) in results {
+        f += a;
+        c += b;
+        for x in w {
+            if !v.iter().any(|y: &Viol| y.signature == x.signature) {
+                v.push(x);
+            }
+        }
+    }
+    (f, c, v)
 }
 
 /// all alt maps fps -> 0..n_buckets
